@@ -165,6 +165,9 @@ func c01Check(ctx *Ctx, idx int, cs coreCase) {
 		ctx.Rep.Fail(hx.Failure{Kind: "model-mismatch", Detail: "real planner error, model planned: " + perr.Error(), Case: full, Index: idx})
 		return
 	}
+	if !modelsAgree(ctx, mplan, full, idx) {
+		return
+	}
 	var realSteps []interface{}
 	for _, s := range rp.RootSteps {
 		realSteps = append(realSteps, realStepToJSON(s))
@@ -459,3 +462,18 @@ func pinWitness(prop, class string, cs coreCase) {
 
 // c01Corpus: pinned witnesses of repaired defects (seed-independent federations).
 func c01Corpus() []coreCase { return loadCorpus("C01") }
+
+// modelsAgree: the driver plans with the value-level sanitiser model (the one the theorems are
+// about) and, where a named fragment is expanded more than once, with the model that carries the
+// in-place rewriting of the shared fragment definition; on every operation WITHOUT repeated
+// expansion both are run and must produce the same plan and scrub table.
+func modelsAgree(ctx *Ctx, mplan map[string]interface{}, full interface{}, idx int) bool {
+	if ms, _ := mplan["multiSpread"].(bool); ms {
+		ctx.Rep.Count("model: sharing sanitiser (a fragment expanded more than once)")
+	}
+	if ok, present := mplan["sharedAgrees"].(bool); present && !ok {
+		ctx.Rep.Fail(hx.Failure{Kind: "model-mismatch", Detail: "Model.plan and Model.planShared disagree on an operation in which no fragment is expanded twice", Case: full, Model: mplan, Index: idx})
+		return false
+	}
+	return true
+}
